@@ -483,18 +483,43 @@ var ruleValidate = &Rule{
 			out.undecided("placement validator", p.pos(astNew.Pos()), fnName(astNew), "ast.New does not call a self-recursive validator")
 			return out
 		}
-		var depthP, subP *ssa.Parameter
-		for _, q := range v.Params {
-			if b, ok := q.Type().(*types.Basic); ok {
-				switch b.Kind() {
-				case types.Int:
-					depthP = q
-				case types.Bool:
-					subP = q
+		// the validator family: functions of package ast with (node, int, bool)
+		// parameters that the root validator reaches and that call each other
+		vparams := func(f *ssa.Function) (n ssa.Value, d, s *ssa.Parameter) {
+			for _, q := range f.Params {
+				if b, ok := q.Type().(*types.Basic); ok {
+					switch b.Kind() {
+					case types.Int:
+						d = q
+					case types.Bool:
+						s = q
+					}
+				} else if types.Identical(q.Type(), types.Type(p.A.Node)) || types.Implements(q.Type(), p.A.NodeIface) {
+					n = q
+				}
+			}
+			return
+		}
+		family := map[*ssa.Function]bool{v: true}
+		for changed := true; changed; {
+			changed = false
+			for f := range family {
+				for _, b := range f.Blocks {
+					for _, ins := range b.Instrs {
+						c, ok := ins.(*ssa.Call)
+						if !ok || c.Call.StaticCallee() == nil || fnPkgPath(c.Call.StaticCallee()) != pkgAST || family[c.Call.StaticCallee()] {
+							continue
+						}
+						g := c.Call.StaticCallee()
+						if gn, gd, gs := vparams(g); gn != nil && gd != nil && gs != nil && len(g.Params) == 3 {
+							family[g] = true
+							changed = true
+						}
+					}
 				}
 			}
 		}
-		if depthP == nil || subP == nil {
+		if _, d0, s0 := vparams(v); d0 == nil || s0 == nil {
 			out.undecided("placement validator", p.pos(v.Pos()), fnName(v), "expected (node, depth int, inSubscript bool)")
 			return out
 		}
@@ -508,113 +533,169 @@ var ruleValidate = &Rule{
 				out.viol("validation starts at depth 0 outside a subscript", p.pos(c.Pos()), fnName(astNew), "the root is not validated with depth 0 / inSubscript false")
 			}
 		}
-		tx, rows := p.extractTable(v, nil, &TableCfg{
-			IntDomain: func(x ssa.Value) []int64 {
-				if x == ssa.Value(depthP) {
-					return []int64{-1, 0, 1, 2}
-				}
-				return nil
-			},
-			SinkContinue: true, MaxPaths: 40000,
-			Sink: func(ins ssa.Instruction) []ssa.Value {
-				c, ok := ins.(*ssa.Call)
-				if !ok || c.Call.StaticCallee() != v {
-					return nil
-				}
-				return []ssa.Value{c.Call.Args[1], c.Call.Args[2]}
-			}})
-		if tx.over {
-			out.undecided("decision table of the placement validator", p.pos(v.Pos()), fnName(v), "too many paths")
-			return out
-		}
 		ui := p.A.Enums["UnaryOperator"]
 		ci := p.A.Enums["Constant"]
 		filterK := constOf(ui.byName("UnaryFilter"))
 		curK, lastK := constOf(ci.byName("ConstCurrent")), constOf(ci.byName("ConstLast"))
-		var unaryOp, constKind string
-		for k, ai := range tx.atoms {
-			if strings.HasPrefix(k, "field:") {
-				if types.Identical(ai.Val.Type(), ui.Type) {
-					unaryOp = k
-				}
-				if types.Identical(ai.Val.Type(), ci.Type) {
-					constKind = k
-				}
-			}
-		}
 		n := 0
 		var probs []string
-		for _, r := range rows {
-			if r.Loop != nil {
-				continue
+		var fam []*ssa.Function
+		for f := range family {
+			fam = append(fam, f)
+		}
+		sortFuncs(fam)
+		for _, vf := range fam {
+			_, depthP, subP := vparams(vf)
+			argIdx := func(q *ssa.Parameter) int {
+				for i, x := range vf.Params {
+					if x == q {
+						return i
+					}
+				}
+				return -1
 			}
-			names := tx.atomsOf(append(guardTerms(r), r.Out...)...)
-			tx.term(depthP, r, 0)
-			tx.term(subP, r, 0)
-			names = uniq(sortStrings(append(names, depthP.Name(), subP.Name())))
-			call, isCall := r.End.(*ssa.Call)
-			for _, as := range tx.models(r, names) {
-				d, s := as[depthP.Name()], as[subP.Name()]
-				if isCall {
-					n++
-					gd, gs := tx.eval(r.Out[0], as, 0), tx.eval(r.Out[1], as, 0)
-					child := call.Call.Args[0]
-					wantD, wantS := d, s
-					what := "child"
-					switch c := child.(type) {
-					case *ssa.Call:
-						if c.Call.IsInvoke() && c.Call.Method.Name() == "Next" {
-							what = "next link"
+			tx, rows := p.extractTable(vf, nil, &TableCfg{
+				IntDomain: func(x ssa.Value) []int64 {
+					if x == ssa.Value(depthP) {
+						return []int64{-1, 0, 1, 2}
+					}
+					return nil
+				},
+				SinkContinue: true, MaxPaths: 40000,
+				Sink: func(ins ssa.Instruction) []ssa.Value {
+					c, ok := ins.(*ssa.Call)
+					if !ok || !family[c.Call.StaticCallee()] {
+						return nil
+					}
+					_, gd, gs := vparams(c.Call.StaticCallee())
+					di, si := -1, -1
+					for i, x := range c.Call.StaticCallee().Params {
+						if x == gd {
+							di = i
 						}
-					case *ssa.UnOp:
-						switch a := c.X.(type) {
-						case *ssa.FieldAddr:
-							if n := namedOf(a.X.Type()); n != nil && n.Obj().Name() == "UnaryNode" {
-								what = "operand of a unary node"
-								if unaryOp != "" && as[unaryOp] == filterK {
-									wantD = d + 1
-									what = "operand of a filter"
+						if x == gs {
+							si = i
+						}
+					}
+					return []ssa.Value{c.Call.Args[di], c.Call.Args[si]}
+				}})
+			_ = argIdx
+			// the table follows each loop body once; that is every iteration's
+			// behaviour only if what a sink is handed does not depend on a value
+			// carried around the loop
+			for _, b := range vf.Blocks {
+				for _, ins := range b.Instrs {
+					c, ok := ins.(*ssa.Call)
+					if !ok || !family[c.Call.StaticCallee()] {
+						continue
+					}
+					for _, a := range c.Call.Args {
+						if bt, ok := a.Type().Underlying().(*types.Basic); !ok || (bt.Kind() != types.Int && bt.Kind() != types.Bool) {
+							continue
+						}
+						if ph := loopCarried(a, map[ssa.Value]bool{}); ph != nil {
+							probs = append(probs, fmt.Sprintf("the depth / in-subscript value handed to the call at %s depends on %s, which is carried from one link of the chain to the next (loop at %s): a later link is validated as if it were inside an earlier link's filter or subscript", p.pos(c.Pos()), ph.Comment, p.pos(firstPos(ph.Block()))))
+						}
+					}
+				}
+			}
+			if tx.over {
+				out.undecided("decision table of the placement validator", p.pos(vf.Pos()), fnName(vf), "too many paths")
+				return out
+			}
+			var unaryOp, constKind string
+			for k, ai := range tx.atoms {
+				if strings.HasPrefix(k, "field:") {
+					if types.Identical(ai.Val.Type(), ui.Type) {
+						unaryOp = k
+					}
+					if types.Identical(ai.Val.Type(), ci.Type) {
+						constKind = k
+					}
+				}
+			}
+			for _, r := range rows {
+				if r.Loop != nil {
+					continue
+				}
+				names := tx.atomsOf(append(guardTerms(r), r.Out...)...)
+				tx.term(depthP, r, 0)
+				tx.term(subP, r, 0)
+				names = uniq(sortStrings(append(names, depthP.Name(), subP.Name())))
+				call, isCall := r.End.(*ssa.Call)
+				for _, as := range tx.models(r, names) {
+					d, s := as[depthP.Name()], as[subP.Name()]
+					if isCall {
+						n++
+						gd, gs := tx.eval(r.Out[0], as, 0), tx.eval(r.Out[1], as, 0)
+						gn, _, _ := vparams(call.Call.StaticCallee())
+						var child ssa.Value
+						for i, x := range call.Call.StaticCallee().Params {
+							if ssa.Value(x) == gn {
+								child = call.Call.Args[i]
+							}
+						}
+						wantD, wantS := d, s
+						what := "child"
+						if q := p.ownNodeParam(child, 0); q != nil {
+							what = "the same node (delegation to " + call.Call.StaticCallee().Name() + ")"
+						} else {
+							switch c := child.(type) {
+							case *ssa.Call:
+								if c.Call.IsInvoke() && c.Call.Method.Name() == "Next" {
+									what = "next link"
+								}
+							case *ssa.UnOp:
+								switch a := c.X.(type) {
+								case *ssa.FieldAddr:
+									if nn := namedOf(a.X.Type()); nn != nil && nn.Obj().Name() == "UnaryNode" {
+										what = "operand of a unary node"
+										if unaryOp != "" && as[unaryOp] == filterK {
+											wantD = d + 1
+											what = "operand of a filter"
+										}
+									}
+								case *ssa.IndexAddr:
+									what = "element of a subscript list"
+									wantS = 1
 								}
 							}
-						case *ssa.IndexAddr:
-							what = "element of a subscript list"
-							wantS = 1
 						}
+						if gd.Kind != "int" || gd.K != wantD {
+							probs = append(probs, fmt.Sprintf("%s is validated at depth %v instead of %d (depth=%d): `@` is accepted or rejected in the wrong place", what, gd.K, wantD, d))
+						}
+						if gs.Kind != "int" || gs.K != wantS {
+							probs = append(probs, fmt.Sprintf("%s is validated with inSubscript=%v instead of %v: `last` is accepted or rejected in the wrong place", what, gs.K == 1, wantS == 1))
+						}
+						continue
 					}
-					if gd.Kind != "int" || gd.K != wantD {
-						probs = append(probs, fmt.Sprintf("%s is validated at depth %v instead of %d (depth=%d): `@` is accepted or rejected in the wrong place", what, gd.K, wantD, d))
+					ret, isRet := r.End.(*ssa.Return)
+					if !isRet || constKind == "" {
+						continue
 					}
-					if gs.Kind != "int" || gs.K != wantS {
-						probs = append(probs, fmt.Sprintf("%s is validated with inSubscript=%v instead of %v: `last` is accepted or rejected in the wrong place", what, gs.K == 1, wantS == 1))
+					k, has := as[constKind]
+					if !has {
+						continue
 					}
-					continue
-				}
-				ret, isRet := r.End.(*ssa.Return)
-				if !isRet || constKind == "" {
-					continue
-				}
-				k, has := as[constKind]
-				if !has {
-					continue
-				}
-				_ = ret
-				isErr := len(r.Out) == 1 && r.Out[0].Kind != "nil"
-				// only returns reached directly from the constant's own check
-				switch {
-				case k == curK && d <= 0:
-					n++
-					if !isErr {
-						probs = append(probs, fmt.Sprintf("`@` at depth %d is accepted", d))
-					}
-				case k == lastK && s == 0:
-					n++
-					if !isErr {
-						probs = append(probs, "`last` outside a subscript is accepted")
-					}
-				case isErr && len(r.Calls) == 0:
-					// an error without any recursive call: must be one of the two cases above
-					if k == curK || k == lastK {
-						probs = append(probs, fmt.Sprintf("a correctly placed constant (kind %d, depth %d, inSubscript %v) is rejected", k, d, s == 1))
+					_ = ret
+					isErr := len(r.Out) == 1 && r.Out[0].Kind != "nil"
+					// only returns reached directly from the constant's own check
+					switch {
+					case k == curK && d <= 0:
+						n++
+						if !isErr {
+							probs = append(probs, fmt.Sprintf("`@` at depth %d is accepted", d))
+						}
+					case k == lastK && s == 0:
+						n++
+						if !isErr {
+							probs = append(probs, "`last` outside a subscript is accepted")
+						}
+					case isErr && len(r.Calls) == 0:
+						// an error without any recursive call: must be one of the two cases above
+						if k == curK || k == lastK {
+							probs = append(probs, fmt.Sprintf("a correctly placed constant (kind %d, depth %d, inSubscript %v) is rejected", k, d, s == 1))
+						}
 					}
 				}
 			}
@@ -637,3 +718,62 @@ var ruleValidate = &Rule{
 }
 
 func init() { register(ruleValidate) }
+
+// loopCarried: v depends (through arithmetic, conversions and phis) on a phi
+// at a loop header one of whose back-edge values differs from its entry value.
+func loopCarried(v ssa.Value, seen map[ssa.Value]bool) *ssa.Phi {
+	if v == nil || seen[v] {
+		return nil
+	}
+	seen[v] = true
+	switch x := v.(type) {
+	case *ssa.Phi:
+		b := x.Block()
+		var entry []ssa.Value
+		var back []ssa.Value
+		for i, pr := range b.Preds {
+			if b.Dominates(pr) {
+				back = append(back, x.Edges[i])
+			} else {
+				entry = append(entry, x.Edges[i])
+			}
+		}
+		if len(back) > 0 {
+			for _, bv := range back {
+				same := false
+				for _, ev := range entry {
+					if sameValue(bv, ev) {
+						same = true
+					}
+					if bc, ok := bv.(*ssa.Const); ok {
+						if ec, ok := ev.(*ssa.Const); ok && bc.Value != nil && ec.Value != nil && bc.Value.ExactString() == ec.Value.ExactString() {
+							same = true
+						}
+					}
+				}
+				if !same && bv != ssa.Value(x) {
+					return x
+				}
+			}
+		}
+		for _, e := range x.Edges {
+			if ph := loopCarried(e, seen); ph != nil {
+				return ph
+			}
+		}
+	case *ssa.BinOp:
+		if ph := loopCarried(x.X, seen); ph != nil {
+			return ph
+		}
+		return loopCarried(x.Y, seen)
+	case *ssa.UnOp:
+		if x.Op == token.NOT || x.Op == token.SUB {
+			return loopCarried(x.X, seen)
+		}
+	case *ssa.Convert:
+		return loopCarried(x.X, seen)
+	case *ssa.ChangeType:
+		return loopCarried(x.X, seen)
+	}
+	return nil
+}
